@@ -60,6 +60,9 @@ MAIN_KINDS = ('test', 'plan', 'bailout', 'version')
 FIELDS = ('state', 'yaml_lineno', 'yaml_indent', 'version', 'plan', 'bailed_out', 'found_late_test', 'num_tests', 'last_test', 'highest_test', 'lineno')
 
 
+_MISSING = object()
+
+
 class _Folder(Folder):
     """sa.consteval cannot fold `<compiled regex>.pattern` (engine gap); add just that."""
 
@@ -85,12 +88,8 @@ class Facts:
         self.cls = mod.cls(PARSER)
         self.parse_line = mod.func(f'{PARSER}.parse_line')
         self.parse_test = mod.func(f'{PARSER}.parse_test')
-        self.states: T.Dict[str, int] = {}
-        for name in ('_MAIN', '_AFTER_TEST', '_YAML'):
-            v = self.fold(name)
-            if not isinstance(v, int):
-                raise Undecided(f'{PARSER}.{name} does not fold to an integer: {v!r}')
-            self.states[name] = v
+        self._consts: T.Dict[str, T.Any] = {}
+        self.states = self._find_states()
         self.regexes: T.Dict[str, Regex] = {}
         self.forms: T.Dict[str, T.Tuple[str, c18_rx.Form]] = {}
         self.form_problems: T.List[T.Tuple[str, str, str, str]] = []
@@ -136,14 +135,135 @@ class Facts:
         return seen
 
     def fold(self, name: str) -> T.Any:
-        if not self.mod.has_assign(name, self.cls):
-            raise AnchorMissing(f'{MTEST}: {PARSER}.{name} not found')
-        return _Folder(self.repo, self.mod, self.cls).fold(self.mod.assign_value(name, self.cls))
+        """Fold a class-level constant; also one bound by tuple unpacking (`A, B, C = range(1, 4)` / `= 1, 2, 3`)."""
+        if name in self._consts:
+            return self._consts[name]
+        val: T.Any
+        if self.mod.has_assign(name, self.cls):
+            unpacked = {t.id for st in self.cls.body if isinstance(st, ast.Assign) and len(st.targets) == 1 and isinstance(st.targets[0], (ast.Tuple, ast.List))
+                        for t in st.targets[0].elts if isinstance(t, ast.Name)}
+            outer = self
+
+            class _Pre(ast.NodeTransformer):     # names bound by tuple unpacking are not visible to sa.consteval: fold them first
+                def visit_Name(self, n: ast.Name) -> ast.AST:
+                    if n.id in unpacked and n.id != name:
+                        v = outer.fold(n.id)
+                        if v is None or isinstance(v, (bool, int, str)):
+                            return ast.copy_location(ast.Constant(value=v), n)
+                    return n
+            val = _Folder(self.repo, self.mod, self.cls).fold(_Pre().visit(_copy(self.mod.assign_value(name, self.cls))))
+        else:
+            val = _MISSING
+            for st in self.cls.body:
+                if isinstance(st, ast.Assign) and len(st.targets) == 1 and isinstance(st.targets[0], (ast.Tuple, ast.List)):
+                    names = [t.id if isinstance(t, ast.Name) else None for t in st.targets[0].elts]
+                    if name in names:
+                        seq = self._fold_seq(st.value)
+                        if len(seq) != len(names):
+                            raise Undecided(f'{PARSER}: `{short(st)}` unpacks {len(seq)} values into {len(names)} names')
+                        val = seq[names.index(name)]
+            if val is _MISSING:
+                raise AnchorMissing(f'{MTEST}: {PARSER}.{name} not found')
+        self._consts[name] = val
+        return val
+
+    def _fold_seq(self, v: ast.AST) -> T.List[T.Any]:
+        if isinstance(v, ast.Call) and isinstance(v.func, ast.Name) and v.func.id == 'range' and not v.keywords and 1 <= len(v.args) <= 3:
+            args = [_Folder(self.repo, self.mod, self.cls).fold(a) for a in v.args]
+            if all(isinstance(a, int) and not isinstance(a, bool) for a in args):
+                return list(range(*args))
+        out = _Folder(self.repo, self.mod, self.cls).fold(v)
+        if isinstance(out, (tuple, list)):
+            return list(out)
+        raise Undecided(f'{PARSER}: cannot fold the unpacked value `{short(v)}`')
+
+    def _has_const(self, name: str) -> bool:
+        try:
+            self.fold(name)
+            return True
+        except (AnchorMissing, Undecided):
+            return False
+
+    def _find_states(self) -> T.Dict[str, int]:
+        """The three parser states {role: value}.  Found by their conventional names when these exist, otherwise by role: the
+        constants `self.state` is assigned / compared with; _MAIN is the class default of `state`, _YAML the one assigned under the
+        YAML-start match, _AFTER_TEST the remaining one."""
+        roles = ('_MAIN', '_AFTER_TEST', '_YAML')
+        self.state_names: T.Dict[str, str] = {}
+        if all(self._has_const(r) for r in roles):
+            out = {r: self.fold(r) for r in roles}
+            self.state_names = {r: r for r in roles}
+        else:
+            used: T.Dict[str, T.Any] = {}
+            yaml_names: T.Set[str] = set()
+
+            def cname(e: ast.AST) -> T.Optional[str]:
+                c = attr_chain(e) or ''
+                head, _, tail = c.rpartition('.')
+                return tail if head in ('self', PARSER, 'cls') and self._has_const(tail) else None
+            for n in ast.walk(self.parse_line):
+                if isinstance(n, ast.Assign) and any(attr_chain(t) == 'self.state' for t in n.targets) and cname(n.value):
+                    used[T.cast(str, cname(n.value))] = n
+                if isinstance(n, ast.Compare) and len(n.ops) == 1:
+                    for x, y in ((n.left, n.comparators[0]), (n.comparators[0], n.left)):
+                        if attr_chain(x) == 'self.state' and cname(y):
+                            used[T.cast(str, cname(y))] = n
+            def blocks(node: ast.AST) -> T.Iterator[T.List[ast.stmt]]:
+                for fld in ('body', 'orelse', 'finalbody'):
+                    blk = getattr(node, fld, None)
+                    if isinstance(blk, list) and blk and isinstance(blk[0], ast.stmt):
+                        yield blk
+                        for st in blk:
+                            yield from blocks(st)
+                for h in getattr(node, 'handlers', []):
+                    yield from blocks(h)
+            for blk in blocks(self.parse_line):
+                for i, n in enumerate(blk):
+                    if not isinstance(n, ast.If):
+                        continue
+                    # the regex whose match this `if` tests: in the test itself (walrus / direct call) or bound by the statement just before
+                    calls = [c for c in ast.walk(n.test) if isinstance(c, ast.Call) and isinstance(c.func, ast.Attribute) and c.func.attr == 'match']
+                    prev = blk[i - 1] if i > 0 else None
+                    tested = {x.id for x in ast.walk(n.test) if isinstance(x, ast.Name)}
+                    if isinstance(prev, ast.Assign) and len(prev.targets) == 1 and isinstance(prev.targets[0], ast.Name) and prev.targets[0].id in tested \
+                            and isinstance(prev.value, ast.Call) and isinstance(prev.value.func, ast.Attribute) and prev.value.func.attr == 'match':
+                        calls.append(prev.value)
+                    for c in calls:
+                        tail = (attr_chain(c.func.value) or '').rpartition('.')[2]   # type: ignore[attr-defined]
+                        try:
+                            v = self.fold(tail) if tail else None
+                        except (AnchorMissing, Undecided):
+                            v = None
+                        if isinstance(v, Regex):
+                            form = c18_rx.line_form(v.pattern, v.flags)
+                            if form is not None and form.kind == 'yaml_start':
+                                for st in n.body:
+                                    if isinstance(st, ast.Assign) and any(attr_chain(t) == 'self.state' for t in st.targets) and cname(st.value):
+                                        yaml_names.add(T.cast(str, cname(st.value)))
+            vals = {k: self.fold(k) for k in used}
+            init = self.fold('state')
+            main = [k for k, v in vals.items() if v == init]
+            if len(set(vals.values())) != 3 or len(vals) != 3 or len(main) != 1 or len(yaml_names) != 1 or yaml_names == set(main):
+                raise Undecided(f'{PARSER}: cannot identify the three parser states by role (constants used with self.state: {sorted(vals)})')
+            y = next(iter(yaml_names))
+            after = [k for k in vals if k not in (main[0], y)]
+            out = {'_MAIN': vals[main[0]], '_YAML': vals[y], '_AFTER_TEST': vals[after[0]]}
+            self.state_names = {'_MAIN': main[0], '_YAML': y, '_AFTER_TEST': after[0]}
+        for r, v in out.items():
+            if not isinstance(v, int) or isinstance(v, bool):
+                raise Undecided(f'{PARSER}: state {r} does not fold to an integer: {v!r}')
+        return out
 
     def state_of(self, text: str) -> T.Optional[str]:
-        """'self._YAML' / 'TAPParser._YAML' -> '_YAML'."""
+        """'self._YAML' / 'TAPParser._YAML' (whatever the constant is called) -> the role '_YAML', by folded value."""
         head, _, tail = text.rpartition('.')
-        return tail if head in ('self', PARSER, 'cls') and tail in self.states else None
+        if head not in ('self', PARSER, 'cls') or not tail or not self._has_const(tail):
+            return None
+        v = self.fold(tail)
+        if isinstance(v, bool) or not isinstance(v, int):
+            return None
+        hits = [r for r, x in self.states.items() if x == v]
+        return hits[0] if len(hits) == 1 else None
 
     def require_forms(self) -> None:
         if self.form_problems:
@@ -305,11 +425,20 @@ def _e(text: str) -> ast.AST:
 
 
 def _truthy(a: Atom) -> T.Optional[T.Tuple[ast.AST, bool]]:
-    """truth(X) -> (X, False); `X is None` -> (X, True): the atom says whether X is set."""
+    """truth(X) -> (X, False); `X is None` / `X == None` -> (X, True); isinstance(X, str|int|...) -> (X, False): the atom says whether X is set."""
     if a.kind == 'truth':
-        return _e(a.args[0]), False
+        e = _e(a.args[0])
+        if isinstance(e, ast.Call) and isinstance(e.func, ast.Name) and e.func.id == 'bool' and len(e.args) == 1:
+            return e.args[0], False
+        return e, False
     if a.kind == 'is' and a.args[1] == 'None':
         return _e(a.args[0]), True
+    if a.kind == 'is' and a.args[0] == 'None':
+        return _e(a.args[1]), True
+    if a.kind == 'cmp' and a.args[0] == 'eq' and 'None' in a.args[1:]:
+        return _e([x for x in a.args[1:] if x != 'None'][0]), True
+    if a.kind == 'isinstance' and 'NoneType' not in a.args[1]:
+        return _e(a.args[0]), False
     return None
 
 
@@ -352,14 +481,18 @@ def _events(f: Facts, row: Row) -> T.List[T.Tuple[str, T.Any, Eff]]:
             c = f.ctor(e.value) if e.value is not None else None
             if c is not None:
                 out.append((c[0], c, e))
-            else:
-                out.append(('?' + short(e.value, 50), None, e))
+            else:   # not an event constructor after resolving reaching definitions: produced somewhere the tables cannot see
+                raise Undecided(f'`yield {short(e.value, 60)}`: the yielded value is not an event constructor the tables can resolve')
         elif e.kind == 'yieldfrom':
             v = e.value
-            if isinstance(v, ast.Call) and (attr_chain(v.func) or '').startswith('self.'):
-                out.append(('forward:' + (attr_chain(v.func) or '')[5:], v, e))
-            else:
-                out.append(('?' + short(v, 50), None, e))
+            if isinstance(v, ast.Call) and attr_chain(v.func) == 'self.parse_test':
+                out.append(('forward:parse_test', v, e))
+            else:   # events produced somewhere this pack cannot see into: never a difference, the verdict is "cannot tell"
+                raise Undecided(f'events are forwarded from `{short(v, 60)}`, which the tables cannot follow')
+        elif e.kind == 'call' and isinstance(e.value, ast.Call):
+            c = attr_chain(e.value.func) or ''
+            if c.startswith('self.') and c.count('.') == 1 and c[5:] in f.mod.methods(PARSER):
+                raise Undecided(f'`{short(e.value, 60)}` calls a parser method the tables cannot follow (it may yield events or write fields)')
     return out
 
 
@@ -459,12 +592,12 @@ class Model:
         self.diffs: T.List[Diff] = []
         self.oks: T.Dict[str, T.List[str]] = {}
         self.qn = f'{PARSER}.parse_line'
-        _check_operands(self)
-        _check_pre(self)
-        _check_test(self)
-        _check_plan(self)
-        _check_small(self)
-        _check_eof(self)
+        self.pending: T.List[str] = []      # tables the pack could not decide: differences found elsewhere are still reported first
+        for chk in (_check_operands, _check_pre, _check_test, _check_plan, _check_small, _check_eof):
+            try:
+                chk(self)
+            except Undecided as e:
+                self.pending.append(str(e))
         self.pt_checked = False
 
     def diff(self, rule: str, construct: str, msg: str, node: T.Optional[ast.AST] = None, func: T.Optional[str] = None) -> None:
@@ -481,6 +614,10 @@ class Model:
             if d.rule == rule and (d.func, d.construct) not in seen:
                 seen.add((d.func, d.construct))
                 ctx.violation(self.f.mod, d.func, d.construct, d.msg, d.node)
+
+    def require_decided(self) -> None:
+        if self.pending:
+            raise Undecided('; '.join(dict.fromkeys(self.pending)))
 
 
 def model(ctx: RuleCtx) -> Model:
@@ -608,8 +745,8 @@ def _pre_sem(m: Model) -> T.Callable[[Atom], T.Optional[T.Tuple[str, bool]]]:
     return sem
 
 
-def _pre_extra() -> T.List[Atom]:
-    texts = ['self.state == self._AFTER_TEST', 'self.state == self._YAML', 'self.version < 13', 'self._RE_YAML_START.match(ARG1)',
+def _pre_extra(f: Facts) -> T.List[Atom]:
+    texts = [f'self.state == self.{f.state_names["_AFTER_TEST"]}', f'self.state == self.{f.state_names["_YAML"]}', 'self.version < 13', 'self._RE_YAML_START.match(ARG1)',
              'self._RE_YAML_END.match(ARG1)', 'ARG1.startswith(self.yaml_indent)', 'ARG1.rstrip()', "ARG1.rstrip().startswith('#')"]
     return [canon(_e(t), True)[0] for t in texts]
 
@@ -654,7 +791,7 @@ def _check_pre(m: Model) -> None:
         rec = ind is not None and f.role_ref(ind, 'yaml_start', 'indent') and ln is not None and ln == _final(r, 'lineno')
         return {'state': None if fs is None else (f.state_of(fs) or fs), 'YAML bookkeeping': bool(rec), 'events': _names(_events(f, r)),
                 'leaves by': r.outcome[0]}
-    n, bad, holes = compare(tab, _pre_sem(m), ref, got, _pre_extra(), consistent=lambda v: _one_state(v) is not None)
+    n, bad, holes = compare(tab, _pre_sem(m), ref, got, _pre_extra(f), consistent=lambda v: _one_state(v) is not None)
     _split(m, tab, bad, {'state': 'C18.R1', 'YAML bookkeeping': 'C18.R1', 'events': 'C18.R2', 'leaves by': 'C18.R2'}, n,
            {'C18.R1': 'next state and YAML bookkeeping', 'C18.R2': 'events and blank/diagnostic handling'})
     for v in holes:
@@ -1013,7 +1150,7 @@ def _check_eof(m: Model) -> None:
 
     def got(r: Row, v: T.Dict[str, T.Optional[bool]]) -> T.Any:
         return {'events': _names(_events(f, r)), 'fields written': sorted(r.final)}
-    extra = [canon(_e(t), True)[0] for t in ('self.state == self._YAML', 'self.bailed_out', 'self.plan', 'self.num_tests == self.plan.num_tests',
+    extra = [canon(_e(t), True)[0] for t in (f'self.state == self.{f.state_names["_YAML"]}', 'self.bailed_out', 'self.plan', 'self.num_tests == self.plan.num_tests',
                                              'self.highest_test == self.num_tests')]
     n, bad, _ = compare(tab, sem, ref, got, extra, foreign=_foreign(f))
     _split(m, tab, bad, {'events': 'C18.R2', 'fields written': 'C18.R2'}, n,
@@ -1236,6 +1373,7 @@ def r1(ctx: RuleCtx) -> None:
     ctx.floor('YAML entries', n_yaml, 1)
     m = model(ctx)
     m.emit(ctx, 'C18.R1')
+    m.require_decided()
 
 
 # ----------------------------------------------------------------------------------------------
@@ -1265,7 +1403,10 @@ def r2(ctx: RuleCtx) -> None:
     m = model(ctx)
     if not m.pt_checked:
         m.pt_checked = True
-        _check_parse_test(m)
+        try:
+            _check_parse_test(m)
+        except Undecided as e:
+            m.pending.append(str(e))
     for kind in MAIN_KINDS:
         tab = m.s.by_kind[kind].table
         nr = [r for r in tab.rows if r.outcome[0] != 'return']
@@ -1274,6 +1415,7 @@ def r2(ctx: RuleCtx) -> None:
     m.emit(ctx, 'C18.R2')
     for q in ('parse', 'parse_async'):
         _driver(ctx, mod, q)
+    m.require_decided()
 
 
 def r3(ctx: RuleCtx) -> None:
@@ -1283,6 +1425,7 @@ def r3(ctx: RuleCtx) -> None:
     for tab in (m.s.by_kind['plan'].table, m.s.by_kind['bailout'].table, m.s.by_kind['version'].table, m.s.post, m.s.eof):
         if not any(d.rule == 'C18.R3' and d.construct.startswith(tab.name) for d in m.diffs):
             ctx.ok(f'{tab.name}: num_tests / last_test / highest_test are not written ({len(tab.rows)} rows)')
+    m.require_decided()
 
 
 def _params(fn: T.Any) -> T.List[str]:
@@ -1302,6 +1445,10 @@ def _driver(ctx: RuleCtx, mod: Module, q: str) -> None:
     if norm(loop.iter) != ps[0]:
         raise Undecided(f'{qn}: the loop does not iterate the input itself: {short(loop.iter)}')
     pm = mod.parent_map()
+    others = sorted({call_name(c) or '' for c in ast.walk(fn) if isinstance(c, ast.Call) and (call_name(c) or '').startswith('self.')
+                     and call_name(c) != 'self.parse_line'})
+    if others:
+        raise Undecided(f'{qn}: calls {others}; the line/EOF sequence is only decided for a driver that calls parse_line directly')
 
     def forwarded(call: ast.Call) -> bool:
         par = pm.get(call)
@@ -1343,7 +1490,12 @@ def _driver(ctx: RuleCtx, mod: Module, q: str) -> None:
             else:
                 seq.append(f'?{short(c)}')
             if not forwarded(c):
-                ctx.violation(mod, qn, c, f'the events of `{short(c)}` are not yielded to the caller', c)
+                par = pm.get(c)
+                dropped = (isinstance(par, ast.Expr) and par.value is c) or (isinstance(par, (ast.For, ast.AsyncFor)) and par.iter is c
+                                                                            and not any(isinstance(x, (ast.Yield, ast.YieldFrom)) for x in ast.walk(par)))
+                if not dropped:
+                    raise Undecided(f'{qn}: cannot follow what happens to the events of `{short(c)}`')
+                ctx.violation(mod, qn, c, f'the events of `{short(c)}` are dropped (not yielded to the caller)', c)
         iters = sum(1 for e in p.events if e.kind == 'iter' and e.node is loop and e.val == 'iter')
         if not (p.outcome in ('fall', 'return') and seq == ['line'] * iters + ['EOF']):
             ctx.violation(mod, qn, f'path with {iters} line(s)', f'for {iters} input line(s) the calls are {seq} (leaving by {p.outcome}); '
@@ -1681,8 +1833,23 @@ def r5(ctx: RuleCtx) -> None:
         return None
     vextra = [canon(_e(acc), True)[0]] + [canon(_e(f'{acc} == TestResult.{x}'), True)[0] for x in members]
 
+    def rhelper(name: str) -> T.Optional[T.Any]:
+        h = mod.methods(RUNNER).get(name)
+        return h if h is not None and name not in ('parse', 'complete') and not isinstance(h, ast.AsyncFunctionDef) else None
+
+    def closed(tab: tables.Table) -> None:
+        """The verdict tables are only compared when every repository method called on the rows was spliced in."""
+        for r_ in tab.rows:
+            for e in T.cast(Row, r_).effs():
+                v = e.value.value if isinstance(e.value, ast.Await) else e.value
+                if e.kind in ('call', 'yieldfrom') and isinstance(v, ast.Call):
+                    c = attr_chain(v.func) or ''
+                    if c.startswith('self.') and c.count('.') == 1 and ctx.repo.find_method(mod, mod.cls(RUNNER), c[5:]) is not None:
+                        raise Undecided(f'{tab.name}: `{short(v, 60)}` calls a repository method the table cannot follow (it may change the verdict)')
+
     # ---- tail: what becomes of self.res
-    ttab, _ = build(fn, tail, f'{RUNNER}.parse[after the loop]')
+    ttab, _ = build(fn, tail, f'{RUNNER}.parse[after the loop]', helpers=rhelper)
+    closed(ttab)
 
     def tsem(a: Atom) -> T.Optional[T.Tuple[str, bool]]:
         s = vsem(a)
@@ -1738,7 +1905,8 @@ def r5(ctx: RuleCtx) -> None:
         ctx.ok(f'{ttab.name}: bad verdict kept, all-SKIP -> SKIP unless the verdict is in {sorted(protected)}, harness verdicts untouched '
                f'({len(trows)} worlds, {len(ttab.rows)} rows; verdict domain {domain})')
     # ---- loop body: one table per event
-    ltab, _ = build(fn, loop.body, f'{RUNNER}.parse[per event]')
+    ltab, _ = build(fn, loop.body, f'{RUNNER}.parse[per event]', helpers=rhelper)
+    closed(ltab)
     kinds = sorted(f.tuples)
 
     def lsem(a: Atom) -> T.Optional[T.Tuple[str, bool]]:
@@ -1808,7 +1976,8 @@ def r5(ctx: RuleCtx) -> None:
     cq = f'{RUNNER}.complete'
     supers = [s for s in cfn.body if isinstance(s, ast.Expr) and isinstance(s.value, ast.Call) and norm(s.value.func) == 'super().complete']
     ctx.require(len(supers) == 1 and cfn.body[-1] is supers[0], f'{cq}: ends with super().complete()', mod, cq, cfn, 'complete() does not end with exactly one super().complete()')
-    ctab, _ = build(cfn, cfn.body, cq)
+    ctab, _ = build(cfn, cfn.body[:-1] if supers and cfn.body[-1] is supers[0] else cfn.body, cq, helpers=rhelper)
+    closed(ctab)
 
     def csem(a: Atom) -> T.Optional[T.Tuple[str, bool]]:
         if a.kind == 'cmp' and a.args[0] == 'eq' and a.args[1] == 'self.returncode' and a.args[2] == '0':
